@@ -318,16 +318,92 @@ func runC02(r *Report) {
 				continue
 			}
 			r.Fn(f)
-			// acquisition: a send on handle.sema (bare or in a select)
+			// acquisition: a send on handle.sema (bare or in a select), or a call of a helper of package fuse that
+			// reports by a boolean whether it took the semaphore (acquire(ctx) bool)
 			var acq ssa.Instruction
 			var acqBlockAfter *ssa.BasicBlock
-			for _, op := range chanOpsIn(f) {
-				for k, st := range op.States {
-					cs := chanSourceOf(st.Chan)
-					if st.Dir == types.SendOnly && cs.Field == sema {
-						acq = op.Instr
-						if sel, ok := op.Instr.(*ssa.Select); ok {
-							acqBlockAfter = selectCaseBlock(sel, k)
+			semaSend := func(g *ssa.Function) (ssa.Instruction, *ssa.BasicBlock) {
+				var a ssa.Instruction
+				var blk *ssa.BasicBlock
+				for _, op := range chanOpsIn(g) {
+					for k, st := range op.States {
+						cs := chanSourceOf(st.Chan)
+						if st.Dir == types.SendOnly && cs.Field == sema {
+							a = op.Instr
+							if sel, ok := op.Instr.(*ssa.Select); ok {
+								blk = selectCaseBlock(sel, k)
+							}
+						}
+					}
+				}
+				return a, blk
+			}
+			acq, acqBlockAfter = semaSend(f)
+			if acq == nil {
+				for _, ci := range callsIn(f) {
+					c, ok := ci.(*ssa.Call)
+					if !ok {
+						continue
+					}
+					h := c.Call.StaticCallee()
+					if h == nil || h.Blocks == nil || relPkg(h) != "fuse" {
+						continue
+					}
+					ha, hb := semaSend(h)
+					if ha == nil {
+						continue
+					}
+					held := func(ret *ssa.Return) bool {
+						if hb != nil {
+							return hb.Dominates(ret.Block())
+						}
+						return instrDominates(ha, ret)
+					}
+					// boolean result: true exactly on the returns that hold the semaphore; no result: every return holds it
+					res := h.Signature.Results()
+					switch {
+					case res.Len() == 0:
+						all := true
+						for _, ret := range returnsOf(h) {
+							all = all && held(ret)
+						}
+						if all {
+							acq = c
+						}
+					case res.Len() == 1 && types.Identical(res.At(0).Type(), types.Typ[types.Bool]):
+						good := true
+						for _, ret := range returnsOf(h) {
+							b, isb := constBool(retResults(ret)[0])
+							if !isb || b != held(ret) {
+								good = false
+							}
+						}
+						if good {
+							// the region entered on result == true
+							for _, ref := range *c.Referrers() {
+								var iff *ssa.If
+								pol := true
+								switch x := ref.(type) {
+								case *ssa.If:
+									iff = x
+								case *ssa.UnOp:
+									if x.Op == token.NOT {
+										for _, r2 := range *x.Referrers() {
+											if i2, ok := r2.(*ssa.If); ok {
+												iff, pol = i2, false
+											}
+										}
+									}
+								}
+								if iff != nil {
+									acq = c
+									if pol {
+										acqBlockAfter = iff.Block().Succs[0]
+									} else {
+										acqBlockAfter = iff.Block().Succs[1]
+									}
+								}
+							}
 						}
 					}
 				}
